@@ -4,6 +4,10 @@ import pipeline, tree_common
 
 def run(chk, tier, seed):
     pipeline.run_container(chk, tier, seed, tree_common, owned={"nearest"})
+    # "always terminates" has a second reader: a search that returns while keeping the table's lock never lets another thread's
+    # search return.  The iterator models again on thread-safe tables, owning the lock balance of the search calls.
+    pipeline.run_container(chk, "cross" if tier == "quick" else "quick", seed + 2, tree_common, owned={"nearest", "lock"}, flagsets=["t"],
+                           threads=4, model_filter=lambda m: m["tag"].startswith("iter"), random_tier="cross")
     chk.cov["exhaustive"] = not chk.infra
     chk.cov["rule"] = ("every transition of the TreeImpl.tla models (shape models over 8-12 keys; iterator models with per-node stamps, parent links, "
                        "epoch counter modulo 4 and client cursor over 3-5 keys) replayed on the real qtreetbl with the real 8-bit epoch counter advanced "
